@@ -7,7 +7,7 @@ CONSTANTS
   Queries <- QueriesFull
   MaxDepth = 12
   Record = TRUE
-  Deviations <- NoDev
+  Deviations <- DevAll
   ConeIgnoresSwap = FALSE
 INVARIANT EmitJson
 CHECK_DEADLOCK FALSE
